@@ -127,13 +127,15 @@ def run(tier="quick", seed=0, replay=None):
         return 1
     core.lean_stage(chk, "C15")
     from harness import cover
+    from harness import fingerprint
+    fingerprint.direct(chk, ['ixai/explainer/pfi.py', 'ixai/explainer/sage/incremental.py', 'ixai/explainer/base.py', 'ixai/explainer/sage/batch.py', 'ixai/explainer/sage/interval.py'])
     _cv = cover.Cover(['ixai/explainer/pfi.py', 'ixai/explainer/sage/incremental.py', 'ixai/explainer/base.py', 'ixai/explainer/sage/batch.py', 'ixai/explainer/sage/interval.py'])
     _cv.__enter__()
     quick = tier == "quick"
     for label, names, f in ctor_sweep(chk)[:4]:
         chk.violation(f"ctor:{label}", f"{label} with feature names {names!r}: {f}", {"ctor": label, "names": [core.canon_key(n) for n in names]})
     reqs, impls = [], []
-    for i in range(40 if quick else 400):
+    for i in range(chk.count(40, 400)):
         kind = ["pfi", "sage"][i % 2]
         cfg = dict(kind=kind, d=chk.rng.randint(1, 4), dynamic=chk.rng.random() < 0.5, alpha=chk.rng.choice([Q(1, 2), Q(1, 3), Q(1)]),
                    n_inner=chk.rng.randint(1, 3), model_kind=chk.rng.choice(["scalar", "multi", "grow"]),
